@@ -36,11 +36,17 @@ type Case struct {
 	Pre    bool   `json:"pre,omitempty"`  // the destination already exists (longer, other content, mode 0600)
 	Used   bool   `json:"used,omitempty"` // the hasher was used before
 	Same   bool   `json:"same,omitempty"` // source and destination (two file systems) use the same path string
+	Link   bool   `json:"link,omitempty"` // the source is named through a symbolic link (the copy is of what it leads to)
 }
+
+// innerOf: for the kind whose FailFS sits below another wrapper, the file system the FailFS goes on.
+var innerOf = map[avfs.VFS]avfs.VFS{}
+
+func symlinks(kind string) bool { return kind == "MemFS" || kind == "MemFS+user" || kind == "OsFS" }
 
 // "MemFS+user": a MemFS with an identity manager whose current user is not the administrator
 // (the kernel-like rules for special bits then apply to what the copy writes)
-var fsKinds = []string{"MemFS", "OrefaFS", "OsFS", "BasePathFS(MemFS)", "MemFS+user"}
+var fsKinds = []string{"MemFS", "OrefaFS", "OsFS", "BasePathFS(MemFS)", "MemFS+user", "BasePathFS(FailFS(MemFS))"}
 
 func specialBits(kind string) bool { return kind == "MemFS" || kind == "MemFS+user" }
 
@@ -73,12 +79,17 @@ func newFS(kind, scratch string) (v avfs.VFS, dir string, err error) {
 		v = osfs.NewWithNoIdm()
 		dir = scratch
 		return v, dir, nil
-	case "BasePathFS(MemFS)":
+	case "BasePathFS(MemFS)", "BasePathFS(FailFS(MemFS))":
 		m := memfs.NewWithOptions(&memfs.Options{OSType: avfs.OsLinux})
 		_ = m.MkdirAll("/base", 0o755)
 		v, err = basepathfs.NewWithErr(m, "/base")
 		if err != nil {
 			return nil, "", err
+		}
+		if kind != "BasePathFS(MemFS)" {
+			// the faults are injected below the BasePathFS (run puts a FailFS between it and m); this
+			// one, without faults, serves the setup and the verification
+			innerOf[v] = m
 		}
 		dir = "/w"
 	}
@@ -190,9 +201,29 @@ func run(c *vt.Ctx, cs Case, scratch string) (dev *vt.Deviation, srcCounts, dstC
 	case "dst":
 		dc.fn, dc.k = avfs.FnVFS(cs.Fn), cs.K
 	}
-	sf, df := failfs.New(srcBase), failfs.New(dstBase)
-	_ = sf.SetFailFunc(sc.f)
-	_ = df.SetFailFunc(dc.f)
+	stack := func(base avfs.VFS, cf *countFn) avfs.VFS {
+		if m, ok := innerOf[base]; ok {
+			delete(innerOf, base)
+			ff := failfs.New(m)
+			w, err := basepathfs.NewWithErr(ff, "/base")
+			if err == nil {
+				_ = ff.SetFailFunc(cf.f) // armed after the wrapper's own look at its base directory
+				return w
+			}
+		}
+		ff := failfs.New(base)
+		_ = ff.SetFailFunc(cf.f)
+		return ff
+	}
+	sf, df := stack(srcBase, sc), stack(dstBase, dc)
+	if cs.Link && symlinks(cs.Src) {
+		lp := srcPath + ".lnk"
+		if err := srcBase.Symlink(srcPath, lp); err != nil {
+			c.Inconclusive("setup: " + err.Error())
+			return
+		}
+		srcPath = lp
+	}
 	h := hasher(cs.Hasher)
 	if h != nil && cs.Used {
 		// the hasher has already served another file: the digest returned must still be
@@ -367,6 +398,7 @@ func TestCheck(t *testing.T) {
 							base.Pre = fn != "HashFile" && vt.Hash64(fmt.Sprintf("%+v", base))%2 == 0
 							base.Used = hs != "nil" && vt.Hash64(fmt.Sprintf("used %+v", base))%2 == 0
 							base.Same = vt.Hash64(fmt.Sprintf("same %+v", base))%3 == 0
+							base.Link = symlinks(src) && vt.Hash64(fmt.Sprintf("link %+v", base))%3 == 0
 							dev, sc, dc, _, _ := run(c, base, scratch)
 							plans++
 							if dev != nil {
